@@ -19,7 +19,9 @@ PROPERTY = "C11"
 LEVEL = "exploration"
 RULE = ("case = (model in {single branch, three branches}; constants G_eq in [1e-2,1e2], K/G in [0.7,1e4], G_neq/G_eq in [1e-2,1e2], "
         "tau in [1e-2,1e2], baked into the compiled model as Python floats or passed as traced arguments; loading kind in {walk, ramp, "
-        "jump, cyclic, uniaxial (repeated stretches, generic axis), tiny}; form in {plane, 3d}; 4 histories per case of 3-15 load steps "
+        "jump, cyclic, uniaxial (repeated stretches, generic axis), tiny (strains 1e-10..1e-5), large_jump / large_ramp (principal stretches 0.1..10 in an arbitrary "
+        "frame with rotations up to 180 degrees, det F in [0.5,2]), large_shear (simple shear gamma up to 5)}; every other traced-constant case has G_eq in [1e-6,1e9] and "
+        "tau in [1e-4,1e4]; form in {plane, 3d}; 4 histories per case of 3-15 load steps "
         "followed by 5-15 hold steps; every dt in [1e-6 tau_min, 1e6 tau_max] (extremes, around tau, log-uniform); hold dt sequences "
         "random / increasing / decreasing / alternating extremes / constant). Non-trivial = some hold step strictly lowered the stored "
         "non-equilibrium energy of a deformed state; distinct = canonical hash of the case parameters.")
@@ -49,6 +51,11 @@ def _required():
            "dt_ratio_le_1e-5": 300, "dt_ratio_ge_1e5": 300, "dt_ratio_mid": 1000, "hold_seq:random": 10, "hold_seq:increasing": 5,
            "hold_seq:decreasing": 5, "hold_seq:alternating": 5, "hold_seq:constant": 5, "mode:baked": 30, "mode:traced": 30,
            "form:plane": 20, "form:3d": 20, "repeated_pair_inputs_single": 100, "model:single:steps": 2500, "model:three:steps": 2500}
+    for sb in ("logstretch_le1", "logstretch_1to2", "logstretch_gt2"):
+        for tb in ("dt_fast", "dt_mid", "dt_slow"):
+            req["%s:%s" % (sb, tb)] = 60
+    req.update({"branch_trial_devlog_gt1:dt_over_tau_gt1": 40, "branch_trial_devlog_gt1:dt_over_tau_le1": 25, "rotation_gt_90deg_steps": 100,
+                "G_scale:lt_1e-2": 3, "G_scale:1e-2_to_1e2": 30, "G_scale:1e2_to_1e6": 3, "G_scale:gt_1e6": 3, "tau_min_lt_1e-2": 8, "tau_max_gt_1e2": 8})
     for k in gen.KINDS:
         req["class:" + k] = 12
     return req
@@ -83,7 +90,8 @@ def build_cases(tier, seed):
             for kind in gen.KINDS:
                 for i in range(T["ct"]):
                     cr = rng_of(derive_seed(seed, PROPERTY, "tconsts", model, g, kind, i))
-                    add(kind, "%s/T%d" % (model, g), model, nb, "traced", gen.random_constants(cr, nb), g * 100000 + i, first)
+                    # every other traced case: absolute stiffness scale over 15 decades, relaxation times over 8
+                    add(kind, "%s/T%d" % (model, g), model, nb, "traced", gen.random_constants(cr, nb, wide=(i + g) % 2 == 1), g * 100000 + i, first)
                     first = False
     return cases
 
@@ -194,6 +202,13 @@ def run_case(case):
     tmin, tmax = min(mdl.tau), max(mdl.tau)
     dt_obs = 1e-12 * tmin
     res.count("mode:" + case["mode"])
+    import math as _m
+    lg, lt0, lt1 = _m.log10(mdl.G), _m.log10(tmin), _m.log10(tmax)
+    res.count("G_scale:" + ("lt_1e-2" if lg < -2 else "1e-2_to_1e2" if lg <= 2 else "1e2_to_1e6" if lg <= 6 else "gt_1e6"))
+    if lt0 < -2:
+        res.count("tau_min_lt_1e-2")
+    if lt1 > 2:
+        res.count("tau_max_gt_1e2")
     res.count("form:" + case["form"])
     res.count("histories", B)
     strict = 0
@@ -211,6 +226,20 @@ def run_case(case):
             res.count(phase + "_steps")
             rmin, rmax = dt / tmax, dt / tmin
             res.count("dt_ratio_le_1e-5" if rmax <= 1e-5 else "dt_ratio_ge_1e5" if rmin >= 1e5 else "dt_ratio_mid")
+            # size of the deformation (largest |log principal stretch| of F) x time-step band
+            sv = onp.linalg.svd(H + onp.eye(3), compute_uv=False)
+            mlog = float(onp.max(onp.abs(onp.log(sv))))
+            sband = "logstretch_gt2" if mlog > 2.0 else "logstretch_1to2" if mlog > 1.0 else "logstretch_le1"
+            tband = "dt_fast" if rmax <= 0.1 else "dt_slow" if rmin >= 10.0 else "dt_mid"
+            res.count("%s:%s" % (sband, tband))
+            if float(onp.max(onp.abs(onp.asarray(H)))) > 0 and float(onp.linalg.norm(H + onp.eye(3) - onp.diag(onp.diag(H + onp.eye(3))))) > 0:
+                Rm = (H + onp.eye(3)) @ onp.linalg.inv(ref.symf((H + onp.eye(3)).T @ (H + onp.eye(3)), onp.sqrt))
+                if float(onp.trace(Rm)) < 1.0:       # rotation angle > 90 degrees
+                    res.count("rotation_gt_90deg_steps")
+            for b, Fv in enumerate(mdl.branch_states(st[i])):
+                Eb, _ = mdl.hencky(H, Fv)
+                if float(onp.max(onp.abs(ref.dev(Eb)))) > 1.0:
+                    res.count("branch_trial_devlog_gt1:%s" % ("dt_over_tau_gt1" if dt / mdl.tau[b] > 1.0 else "dt_over_tau_le1"))
             # trial quantities (numpy) ------------------------------------------------
             neq_old, _, rb_old = mdl.stored_neq(H, st[i])
             gaps = [ref.spectral_info(mdl.hencky(H, Fv)[1]) for Fv in mdl.branch_states(st[i])]
